@@ -459,7 +459,7 @@ func TestC08(t *testing.T) {
 			}
 			var outKey *frame.V2Key
 			if withKey {
-				outKey = frame.NewV2Key(keyRaw)
+				outKey = mkKey(keyRaw)
 			}
 			var fixErr error
 			var rt *routerNode
